@@ -316,7 +316,7 @@ Proof.
   destruct (len p <? _) eqn:L1; [discriminate|].
   destruct (_ && _); [discriminate|].
   destruct (negb _); [discriminate|].
-  intros H. inversion H; subst m; clear H. unfold decoded_header. cbn [m_ver m_enc m_id m_bcd].
+  intros H. apply (f_equal (fun r => match r with Ok x => x | _ => m end)) in H. cbv beta iota in H. rewrite <- H. clear H. unfold decoded_header. cbn [m_ver m_enc m_id m_bcd].
   repeat split.
   - apply land1_lt.
   - apply bit10_lt.
